@@ -49,7 +49,7 @@ def jsonable(x):
     return repr(x)
 
 
-def run_oracle(mod, rng, budget, tier, must_find=False):
+def run_oracle(mod, rng, budget, tier, must_find=False, known=()):
     """iterate mod.oracle(rng, tier): each item is a dict
        {kind, case, ok, detail, nontrivial}.  Stops after `budget` evaluations or the time cap."""
     res = {'evaluations': 0, 'distinct': 0, 'failures': [], 'distribution': {}, 'samples': [],
@@ -80,6 +80,8 @@ def run_oracle(mod, rng, budget, tier, must_find=False):
                                             'detail': item.get('detail', '')})
             if res['evaluations'] >= budget or time.time() - t0 > cap:
                 break
+            if sum(1 for f in res['failures'] if not match_known(known, f)) >= 3:
+                break            # three unlisted failing inputs are enough for a replay: do not spend the budget on a broken tree
     except Exception:
         res['failures'].append({'kind': 'oracle-crash', 'case': None, 'detail': traceback.format_exc()[-2000:]})
     res['distinct'] = len(seen)
